@@ -9,15 +9,19 @@ Property theorems only (helper lemmas live in `MJ/Proofs/Lexer*.lean`).
   (`MJ/Model/Lexer.lean`); `find` is the start-marker search — `Lexer.findStart d` is what the
   tokenizer uses: `find_start_marker_memchr` for the default delimiters and the leftmost-longest
   search `findLL d` (the specification of the Aho-Corasick path) otherwise;
-* `Lexer.Tmpl` is a template as a head text and (tag, text) pairs over the fixed tag vocabulary
-  (`{{ v }}`, `{% if t %}`, `{% endif %}`, `{# c #}`, `{% raw %}…{% endraw %}`, every marker in
-  {none, -, +} on every side), `unparse d` writes it with the delimiters `d`;
+* `Lexer.Tmpl` is a template as a head text and (tag, text) pairs over the tag vocabulary
+  `{{ v }}`, `{% if t %}`, `{% endif %}`, `{% raw %}…{% endraw %}` (each also in its tight form
+  `{{v}}`, `{%if t%}`, `{%raw%}…{%endraw%}`), comments with an arbitrary body (empty, blank, made of
+  `-`/`+` characters, …), every marker in {none, -, +} on every side; `unparse d` writes it with
+  the delimiters `d`;
 * `Lexer.specRender` applies the five whitespace rules of the statement locally
   (`MJ/Model/LexerSpec.lean`); `renderRes vm bm` is the text a render prints when a variable tag
   prints `vm` and a block tag `bm`;
 * `Lexer.delimFree d tm`: no start delimiter of `d` begins inside a text of `tm` (also not
   straddling into the next tag), at a tag the tag's own start delimiter is the longest match, raw
-  content contains no block start;
+  content contains no block start, a comment body does not contain the comment end and is not
+  ambiguous with a marker (`commentOk`: e.g. `{#-#}` is the comment with a *left* `-`, so the tag
+  "empty body, right `-` only" is excluded; `{# - #}` and `{#- - -#}` are fine);
 * `Lexer.goodDelims d`: no line prefixes, distinct non-empty start delimiters that do not begin
   with whitespace, end delimiters that begin with a character that is neither ASCII whitespace,
   an identifier character nor `-`/`+`, and do not end in whitespace (true of every family in the
@@ -49,8 +53,20 @@ theorem lex_eq_spec : C10_full := by
     `a\n  {% if t %}\r\n{{- v +}} x {# c -#}\n` -/
 example : goodDelims defaultDelims = true ∧
     delimFree defaultDelims ⟨['a', '\n', ' ', ' '],
-      [(⟨.block .ifT, .none, .none⟩, ['\r', '\n']), (⟨.var, .minus, .plus⟩, [' ', 'x', ' ']),
-       (⟨.comment, .none, .minus⟩, ['\n'])]⟩ = true := by decide
+      [(⟨.block .ifT false, .none, .none⟩, ['\r', '\n']), (⟨.var false, .minus, .plus⟩, [' ', 'x', ' ']),
+       (⟨.comment [' ', 'c', ' '], .none, .minus⟩, ['\n'])]⟩ = true := by decide
+
+/-- degenerate tags are inside the hypotheses: `a{#-#} {#+#}\n{##}{#--#}{# - #}{#- - -#}{{-v-}}{%-if t-%}\n{%-raw-%}{%-endraw-%}` -/
+example : delimFree defaultDelims ⟨['a'],
+      [(⟨.comment [], .minus, .none⟩, [' ']), (⟨.comment [], .plus, .none⟩, ['\n']),
+       (⟨.comment [], .none, .none⟩, []), (⟨.comment [], .minus, .minus⟩, []),
+       (⟨.comment [' ', '-', ' '], .none, .none⟩, []), (⟨.comment [' ', '-', ' '], .minus, .minus⟩, []),
+       (⟨.var true, .minus, .minus⟩, []), (⟨.block .ifT true, .minus, .minus⟩, ['\n']),
+       (⟨.raw [] .minus .minus true, .minus, .minus⟩, [])]⟩ = true := by decide
+
+/-- the ambiguous writing is excluded: "empty body, right `-` only" unparses to `{#-#}`, which
+    is the comment with a left marker -/
+example : delimFree defaultDelims ⟨[], [(⟨.comment [], .none, .minus⟩, [])]⟩ = false := by decide
 
 /-- the same with the search as a parameter: any search that is leftmost-longest in the sense of
     `LeftmostLongest` (leftmost start, then longest pattern, line statement prefix only at line
@@ -122,8 +138,9 @@ theorem round_rule (cfg : Cfg) (d : Delims) (hg : goodDelims d = true) (first : 
 /-- A raw block emits its content: what is printed for the tag is the content minus the cuts the
     rules name for the inner sides of `{% raw %}` and `{% endraw %}` … -/
 theorem raw_rule (cfg : Cfg) (vm bm : List Char) (d : Delims) (h t' c : List Char) (l ri l2 r : Mark)
-    (hg : goodDelims d = true) (hf : delimFree d ⟨h, [(⟨.raw c ri l2, l, r⟩, t')]⟩ = true) :
-    ∃ a b, renderRes vm bm (lex cfg d (findStart d) (unparse d ⟨h, [(⟨.raw c ri l2, l, r⟩, t')]⟩)) =
+    (tight : Bool)
+    (hg : goodDelims d = true) (hf : delimFree d ⟨h, [(⟨.raw c ri l2 tight, l, r⟩, t')]⟩ = true) :
+    ∃ a b, renderRes vm bm (lex cfg d (findStart d) (unparse d ⟨h, [(⟨.raw c ri l2 tight, l, r⟩, t')]⟩)) =
       some (a ++ cut (leftCut cfg true ri c) (rightCut cfg false true l2 c) c ++ b) := by
   rw [lex_eq_spec cfg vm bm d _ hg hf]
   cases hk : cfg.keep
@@ -146,7 +163,7 @@ theorem raw_verbatim (cfg : Cfg) (c : List Char) (ri l2 : Mark)
     rcases h2 with rfl | ⟨rfl, h⟩ <;> simp [rightCut, *]
   rw [hl, hr, cut_zero_right]; rfl
 
-example : delimFree defaultDelims ⟨['x'], [(⟨.raw ['{', '{', ' ', 'v', ' ', '}', '}', '\n', ' '] .plus .none, .none, .minus⟩, [' '])]⟩ = true := by
+example : delimFree defaultDelims ⟨['x'], [(⟨.raw ['{', '{', ' ', 'v', ' ', '}', '}', '\n', ' '] .plus .none false, .none, .minus⟩, [' '])]⟩ = true := by
   decide
 
 /-- Rewriting a template's tags to other delimiters does not change what it renders, as long as
@@ -180,7 +197,8 @@ def angle4 : Delims :=
 /-- hypotheses of `delim_invariance` are satisfiable by prefix-sharing families and a template
     with look-alike text -/
 example : goodDelims erb = true ∧ goodDelims angle4 = true ∧ goodDelims defaultDelims = true ∧
-    (let tm : Tmpl := ⟨[' ', '}', ' '], [(⟨.var, .none, .minus⟩, ['\n', '%', ' ']), (⟨.block .ifT, .plus, .none⟩, ['\n'])]⟩
+    (let tm : Tmpl := ⟨[' ', '}', ' '], [(⟨.var false, .none, .minus⟩, ['\n', '%', ' ']), (⟨.block .ifT true, .plus, .none⟩, ['\n']),
+       (⟨.comment [], .plus, .none⟩, ['\n'])]⟩
      delimFree erb tm = true ∧ delimFree angle4 tm = true ∧ delimFree defaultDelims tm = true) := by
   decide
 
